@@ -408,6 +408,20 @@ func (c *Check) justifyIndex(f *Func, pa *Path, i int, ev *Event) (bool, string)
 				return true, "constant index into an array"
 			}
 		}
+		// a counter that starts at c, minus k ≤ c
+		if b, ok := idx.Match("(- (keyfrom $C $Y) $K)"); ok && b["$Y"].Eq(x) {
+			if cst, ok1 := litInt(b["$C"]); ok1 {
+				if k, ok2 := litInt(b["$K"]); ok2 && k >= 0 && k <= cst {
+					return true, "index counter-k of a loop whose counter starts at c ≥ k and stays below len"
+				}
+			}
+		}
+		// the last element(s) of a value known to be long enough
+		if b, ok := idx.Match("(- (len $Y) $K)"); ok && b["$Y"].Eq(x) {
+			if k, ok2 := litInt(b["$K"]); ok2 && k >= 1 && lenAtLeast(k) {
+				return true, "index len-k under a length fact"
+			}
+		}
 		// i-1 under i != 0 where i is a range key of the same operand
 		if b, ok := idx.Match("(- (key $Y) #1)"); ok && b["$Y"].Eq(x) {
 			z := Fact{T: mk("==", mk("key", x), atom("#0"))}
@@ -487,7 +501,7 @@ func (c *Check) mutateWhileIterating() {
 				"a record of the family under iteration is only deleted, at the iterator's current position: "+shortTerm(e.Key))
 		}
 	}
-	c.req(n >= 2, "C20.4", "mutation-during-iteration-sites", token.NoPos, fmt.Sprintf("%d sites mutate the family they iterate", n))
+	c.req(n >= 1, "C20.4", "mutation-during-iteration-sites", token.NoPos, fmt.Sprintf("%d sites mutate the family they iterate", n))
 }
 
 // batchStartListNonEmpty: the provider list passed to the batch-start call is a literal with at least one element.
